@@ -205,7 +205,9 @@ func (r *RefEVM) exec(ws *MState, from, to []byte, nonce, gas uint64, price, amt
 		if ma := ws.Accounts[hx(a[:])]; ma != nil {
 			preSum.Add(preSum, ma.Bal)
 		}
-		postSum.Add(postSum, r.sdb.GetBalance(a))
+		if !r.sdb.HasSuicided(a) { // whatever a self-destructed account holds at the end of the transaction vanishes with it
+			postSum.Add(postSum, r.sdb.GetBalance(a))
+		}
 	}
 	res.Burn.Sub(preSum, postSum)
 	res.Burn.Sub(res.Burn, new(big.Int).Mul(new(big.Int).SetUint64(xres.UsedGas), price))
